@@ -154,7 +154,7 @@ static void str_case(long k, fcase *c) {
 
 /* directives the lattices above do not contain: %ls (wide string through wcstombs), %lc, %b / %#b, %p */
 static const wchar_t *WSTRS[] = {L"", L"a", L"hello", L"0123456789abcdefghijklmnopqrstuvwxyzABCD", L"grüß", L"€€€€€€€"};
-static long n_spc_cases(void) { return 6L * 5 * 3 * 2 + 4 * 3 * 2 * 2 + 2 * 15 * 3 * 3 + 4 + 6; }
+static long n_spc_cases(void) { return 6L * 5 * 3 * 2 + 4 * 3 * 2 * 2 + 2 * 15 * 3 * 3 + 4 + 6 + 7; }
 static void spc_case(long k, fcase *c) {
     static const int SW[] = {-1, 3, 12}; static const int SP[] = {-1, 0, 1, 3, 70}; static const char *SF[] = {"", "-"};
     memset(c, 0, sizeof *c); c->strarg = -1; c->one_dir = 1;
@@ -195,6 +195,12 @@ static void spc_case(long k, fcase *c) {
         return;
     }
     k -= 2 * 15 * 3 * 3;
+    if (k >= 10) {  /* directives the standard leaves undefined or that cannot succeed: the library may fail, but then as any failed call (terminated, empty, reported once) */
+        static const char *UF[] = {"%Ld", "%Li", "%Lu", "x%Lxy", "%2147483615d", "a%2147483640sb", "%.2147483640d"}; k -= 10;
+        snprintf(c->fmt, sizeof c->fmt, "%s", UF[k]); if (k == 5) add_g(c, (long long)(intptr_t)"s"); else add_g(c, 5);
+        c->one_dir = 0; c->ref_fails = 2; snprintf(c->cls, sizeof c->cls, "may-fail|%s", k < 4 ? "L-with-integer" : "huge-width-or-precision"); snprintf(c->rc, sizeof c->rc, "%s", c->cls);
+        return;
+    }
     if (k >= 4) {   /* wide arguments the "C" locale cannot represent: C printf fails, so must the library, and nothing may stay in dest */
         static const wchar_t bad[] = L"ab\x100" L"cd"; k -= 4; int ctx = (int)(k % 3), islc = (int)(k / 3);
         static const char *CT[] = {"%s", "x=%s;", "%%d %s"}; char dir[8]; snprintf(dir, sizeof dir, islc ? "%%lc" : "%%ls");
@@ -307,7 +313,8 @@ static void run_case(fcase *c, long idx) {
     K[K_CASES]++;
     /* ---- reference text from libc */
     if (c->utf8) setlocale(LC_ALL, "C.UTF-8");
-    if (!c->has_n) { P_dest = ref; P_n = sizeof ref; P_fmt = c->reffmt[0] ? c->reffmt : c->fmt; call_target(99, c->a, c->na, c->code); reflen = P_ret; if (reflen < 0 && strstr(c->cls, "not-representable")) { c->ref_fails = 1; reflen = 24; ref[0] = 0; } else if (reflen < 0 || reflen >= (int)sizeof ref) { if (c->utf8) setlocale(LC_ALL, "C"); return; } }
+    if (c->ref_fails == 2) { reflen = 24; ref[0] = 0; }
+    else if (!c->has_n) { P_dest = ref; P_n = sizeof ref; P_fmt = c->reffmt[0] ? c->reffmt : c->fmt; call_target(99, c->a, c->na, c->code); reflen = P_ret; if (c->ref_fails == 2) { reflen = 24; ref[0] = 0; } else if (reflen < 0 && strstr(c->cls, "not-representable")) { c->ref_fails = 1; reflen = 24; ref[0] = 0; } else if (reflen < 0 || reflen >= (int)sizeof ref) { if (c->utf8) setlocale(LC_ALL, "C"); return; } }
     else { reflen = 8; ref[0] = 0; }
     size_t need = (size_t)reflen + 1;
     /* ---- buffer targets over a dmax sweep */
@@ -342,7 +349,7 @@ static void run_case(fcase *c, long idx) {
         }
         /* ---- C05 self-consistency */
         if (hc > 1) { snprintf(obs, sizeof obs, "%d handler invocations (%s, %s), ret %d", hc, errname(g_h.code[0]), errname(g_h.code[1]), ret); vio("C05", c, t, idx, dmax, "R1-handler-invoked-more-than-once", fitc, obs); }
-        else if (hc == 1 && ret != -g_h.code[0]) { snprintf(obs, sizeof obs, "handler got %s, call returned %d", errname(g_h.code[0]), ret); vio("C05", c, t, idx, dmax, "R2-handler-code-differs-from-returned-code", fitc, obs); }
+        else if (hc == 1 && ret != -g_h.code[0]) { snprintf(obs, sizeof obs, "handler got %s, call returned %d", errname(g_h.code[0]), ret); char dd[60]; snprintf(dd, sizeof dd, "handler=%s,returned=%d", errname(g_h.code[0]), ret); vio("C05", c, t, idx, dmax, "R2-handler-code-differs-from-returned-code", dd, obs); }
         else if (hc == 0 && ret < 0) { snprintf(obs, sizeof obs, "returned %d (%s) without invoking the handler", ret, errname(-ret)); vio("C05", c, t, idx, dmax, "R3-failure-returned-without-handler", fitc, obs); }
         /* ---- C03 / C04 / C08 */
         size_t dl = strnlen((char *)dest, dmax);
@@ -358,6 +365,7 @@ static void run_case(fcase *c, long idx) {
         /* ---- C11 */
         K[K_C11]++;
         if (strcmp(g_prop, "C09")) { char b[200]; snprintf(b, sizeof b, "%s;%s;%s;%d", TN[t], c->cls, fitc, ret < 0 ? -1 : 0); distinct_add(hash_str(b)); }
+        if (c->ref_fails == 2) continue;
         if (c->ref_fails) { if (ret >= 0) { snprintf(obs, sizeof obs, "returned %d and stored '%.40s' although the wide argument has no representation in the locale (C printf fails)", ret, (char *)dest); vio("C11", c, t, idx, dmax, "succeeds-although-printf-fails", c->rc, obs); } continue; }
         if (c->invalid_arg == 2) { if (ret >= 0 && ret != reflen && fits) { snprintf(obs, sizeof obs, "returned %d, libc counts %d", ret, reflen); vio("C11", c, t, idx, dmax, "count-differs", c->cls, obs); } continue; }
         if (fits) {
@@ -375,7 +383,7 @@ static void run_case(fcase *c, long idx) {
         }
     }
     /* ---- stream targets: same characters as libc / as the buffer variant */
-    if (!c->has_n || 1) for (int t = T_FPRINTF; t < T_NUM; t++) {
+    if (!(c->ref_fails == 2 && strstr(c->cls, "huge"))) for (int t = T_FPRINTF; t < T_NUM; t++) {   /* (no gigabytes of padding into a temporary file) */
         if (!g_tier && (idx + t) % 3) continue;
         FILE *f = (t == T_PRINTF || t == T_VPRINTF) ? g_stdout_tmp : g_tmp;
         int fd = fileno(f); fflush(f); if (ftruncate(fd, 0)) {} rewind(f);
@@ -394,6 +402,7 @@ static void run_case(fcase *c, long idx) {
         }
         K[K_STREAM]++; K[K_C11]++;
         if (c->invalid_arg == 2) continue;
+        if (c->ref_fails == 2) continue;
         if (c->ref_fails) { if (ret >= 0) { snprintf(obs, sizeof obs, "returned %d although the wide argument has no representation in the locale", ret); vio("C11", c, t, idx, 0, "succeeds-although-printf-fails", c->rc, obs); } continue; }
         if (ret < 0) { snprintf(obs, sizeof obs, "failed with %d although every argument is valid", ret); vio("C11", c, t, idx, 0, "stream-variant-fails", c->rc[0] ? c->rc : c->cls, obs); }
         else { int same = (n == (size_t)reflen && !memcmp(buf2, ref, n)); char why[200] = "";
